@@ -39,9 +39,15 @@ KINDS = {
 ALL = [o for v in KINDS.values() for o in v]
 
 
+def order_sensitive(o):
+    """can the outcome depend on HashMap iteration order?  (two or more items, or an item of the
+    declaration K, which has two items with the same value)"""
+    return o[0] == "l" and (len(o[1]) >= 2 or any(org == "K" for org, _, _ in o[1]))
+
+
 def gen_native_cases(ctx):
     cases = []
-    per_op = 260 if ctx.quick() else None
+    per_op = 170 if ctx.quick() else None
     kinds = list(KINDS)
     for op, (_, ar) in OPS.items():
         if ar == 1:
@@ -81,7 +87,7 @@ def gen_cmd_cases(ctx):
     targets = LISTS_WF + [I(1), S("a"), L([(None, "a", 1)])]
     pool = [(t, a, b) for t in targets for a in bounds for b in bounds]
     if ctx.quick():
-        pool = ctx.rng.sample(pool, 400)
+        pool = ctx.rng.sample(pool, 250)
     for t, a, b in pool:
         out.append(("range", [op_json(t), op_json(a), op_json(b), "range"],
                     lambda oo, t=t, a=a, b=b: f"run_list_range {oo} fo defs {op_coq(t)} {op_coq(a)} {op_coq(b)}", 42))
@@ -161,17 +167,47 @@ def run(ctx):
         exprs = []
         for op, args in cases:
             a = ";".join(op_coq(x) for x in args)
-            if any(x[0] == "l" for x in args):
+            if any(order_sensitive(x) for x in args):
                 exprs.append(f"all_orders (fun oo => run_native oo true fo defs {op} [{a}])")
             else:
                 exprs.append(f"run_native ord_id true fo defs {op} [{a}]")
         model = nc.resolve_sentinels(nc.run_model(exprs, pre, "c07n"))
-        for (op, args), i, m in zip(cases, impl, model):
+        dep_idx = set()
+        for k, ((op, args), i, m) in enumerate(zip(cases, impl, model)):
             alts = [strip_site(x) for x in m.split("\x03")]
             if len(alts) > 1:
                 order_dep.append(dict(op=op, args=args, outcomes=alts))
+                dep_idx.add(k)
             if i not in alts:
                 mism.append(dict(stream="native", op=op, args=args, impl=i, model=m))
+
+        # ---- property-direct: the implementation against the SPECIFICATION (Spec/ExprSpec.v)
+        okb, logb = ctx.build(["theories/Spec/SpecRun.vo"])
+        if not okb:
+            raise RuntimeError(logb[-800:])
+        sidx, sexprs = [], []
+        for k, (op, args) in enumerate(cases):
+            if k in dep_idx:
+                continue
+            kinds_ = [a[0] for a in args]
+            coq = [op_coq(a) for a in args]
+            if all(x in ("i", "f", "b", "s") for x in kinds_):
+                sexprs.append(f"run_spec_scalar fo {op} [{';'.join(coq)}]")
+            elif len(args) == 2 and all(a in LISTS_WF for a in args):
+                sexprs.append(f"run_spec_list_binary fo {op} {coq[0]} {coq[1]}")
+            elif len(args) == 1 and args[0] in LISTS_WF and op in ("NCount", "NValueOfList", "NNot", "NAll", "NInvert"):
+                sexprs.append(f"run_spec_list_unary fo defs {op} {coq[0]}")
+            else:
+                continue
+            sidx.append(k)
+        spre = pre.replace("From Ink.Data Require Import Native NativeRun Path.", "")
+        smodel = nc.resolve_sentinels(vlib.coq_eval_sharded(
+            nc.PREAMBLE + "From Ink.Spec Require Import SpecRun.\n" + pre, sexprs, shard=300, name="c07s"))
+        n_spec = len(sexprs)
+        for k, sp in zip(sidx, smodel):
+            if sp != impl[k]:
+                op, args = cases[k]
+                spec_fail.append(dict(op=op, args=args, impl=impl[k], spec=sp))
 
         # ---- list / random commands
         cmds = gen_cmd_cases(ctx)
@@ -205,6 +241,7 @@ def run(ctx):
         samples=[dict(op=cases[0][0], args=cases[0][1]), dict(op=cases[len(cases) // 2][0], args=cases[len(cases) // 2][1])]
         if n_native else [],
         traces_validated_against_impl=n_native + n_cmd + n_f32,
+        compared_with_specification=n_spec,
         correspondence_mismatches=len(mism),
         order_dependent_cases=len(order_dep),
         order_dependent_sample=order_dep[:3],
